@@ -8,9 +8,11 @@ package main
 // Indexing or slicing an abstracted key leaves the subset.
 
 import (
+	"fmt"
 	"go/ast"
 	"go/token"
 	"go/types"
+	"os"
 	"strings"
 )
 
@@ -238,12 +240,26 @@ func (e *Env) sortSearchModel(call *ast.CallExpr, st *State, args []Value) (Valu
 		v := e.inlineLit(lit, fakeCall, tmp, []Value{idx})
 		t, ok := v.(*Term)
 		if !ok || t.Sort != SBool {
-			return c.freshVar("searchpred", SBool)
+			if os.Getenv("GOCV_SEARCHDBG") != "" {
+				fmt.Fprintf(os.Stderr, "sort.Search predicate not a boolean term in %s: %T %v\n", c.FI.Key, v, v)
+			}
+			return nil
 		}
 		return t
 	}
 	j := Var(c.freshName("sj"), c.idxSort())
 	pj := evalAt(j)
+	if pj != nil && !mentionsVar(pj, j.Name) && os.Getenv("GOCV_SEARCHDBG") != "" {
+		fmt.Fprintf(os.Stderr, "sort.Search predicate independent of the index in %s: %s\n", c.FI.Key, pj.String())
+	}
+	if pj == nil || !mentionsVar(pj, j.Name) {
+		// the predicate could not be evaluated as a function of the index (unmodelled code in the closure): nothing
+		// is known about the result beyond its range. (Treating it as one unknown truth value for every index
+		// would exclude every result strictly inside the range.)
+		r := c.freshVar("search", c.idxSort())
+		st.assume(And(c.ile(c.idxC(0), r), c.ile(r, n)))
+		return r, true
+	}
 	at := func(x *Term) *Term { return subst(pj, map[string]*Term{j.Name: x}) }
 	r := c.freshVar("search", c.idxSort())
 	st.assume(And(c.ile(c.idxC(0), r), c.ile(r, n)))
